@@ -243,6 +243,8 @@ func TestC07(t *testing.T) {
 				exp := int64(0)
 				if rapid.IntRange(0, 4).Draw(rt, "payOnce") == 0 {
 					exp = w.f.Height() + rapid.SampledFrom([]int64{20_000, 100_000}).Draw(rt, "expiresIn")
+				} else if rapid.IntRange(0, 5).Draw(rt, "staleExpiry") == 0 {
+					exp = rapid.SampledFrom([]int64{1, w.f.Height() - 1, w.f.Height()}).Draw(rt, "expiryInThePast") // a height left over in the field
 				}
 				nFile++
 				var f *sFile
